@@ -54,6 +54,8 @@ def main(ctx):
     run_stream(ctx, ctx.scale(220, 5000), dict(c02_safe=True, p_param_named_inst=0.4, p_template=0.5), "guarded", True)
     run_stream(ctx, ctx.scale(90, 1500), dict(c02_safe=True, p_param_named_inst=0.9, p_template=0.95, max_decls=3),
                "guarded, instantiations spelled like other parameters", True)
+    run_stream(ctx, ctx.scale(90, 1500), dict(c02_safe=True, p_twin_arg=0.6, p_template=0.8, max_args=5, max_decls=3),
+               "guarded, argument lists repeating a container with other inner qualifiers", True)
     run_stream(ctx, ctx.scale(120, 2500), dict(), "unguarded(quirks tied to the model only)", False)
     for e in ctx.known:
         still = replay_finding(e)
